@@ -1294,3 +1294,32 @@ func blockLocalValue(v ssa.Value) ssa.Value {
 	}
 	return v
 }
+
+// unlockBetween returns a (non-deferred) Unlock/RUnlock instruction that lies
+// on some path from a to b: the two instructions are then not in one critical
+// section even if a lock is held at both. Must-locksets cannot see this when
+// the release and re-acquisition sit in a conditional block.
+func unlockBetween(a, b ssa.Instruction) ssa.Instruction {
+	var found ssa.Instruction
+	WalkFrom(nil, a, func(in ssa.Instruction) int {
+		if found != nil || in == b {
+			return Stop
+		}
+		if c, ok := in.(*ssa.Call); ok {
+			if _, op, ok := lockOp(c); ok && (op == "Unlock" || op == "RUnlock") {
+				hits := WalkFrom(nil, in, func(x ssa.Instruction) int {
+					if x == b {
+						return Hit
+					}
+					return Cont
+				}, nil)
+				if len(hits) > 0 {
+					found = in
+					return Stop
+				}
+			}
+		}
+		return Cont
+	}, nil)
+	return found
+}
